@@ -1,0 +1,21 @@
+//go:build verif
+
+package code93
+
+// VerifEncodeTable exposes encodeTable for the /verif translator: rune -> {value, data}.
+func VerifEncodeTable() map[rune][2]int {
+	res := make(map[rune][2]int, len(encodeTable))
+	for r, e := range encodeTable {
+		res[r] = [2]int{e.value, e.data}
+	}
+	return res
+}
+
+// VerifExtendedTable exposes extendedTable (full ASCII spellings, indexed by ASCII code).
+func VerifExtendedTable() []string { return append([]string(nil), extendedTable...) }
+
+// VerifGetChecksum exposes getChecksum.
+func VerifGetChecksum(content string, maxWeight int) rune { return getChecksum(content, maxWeight) }
+
+// VerifPrepare exposes prepare.
+func VerifPrepare(content string) (string, error) { return prepare(content) }
